@@ -18,6 +18,8 @@ Decided (every path of verify, all inputs):
   s32-order    the 32-bit byte-wise S < L test is the big-endian order on all 2^256 inputs: 65 abstract cases (first
                differing byte x order there, and S == L) each fold to a constant in the interval domain
   signing      key derivation, clamp and signing-equation wiring (shared with C13); scalar32 reduce / muladd (sc32 rules)
+  fe-use     32-bit backend: every call site of a field operation anywhere in the crate hands it operands built from at most
+             three TIGHT values without a carry (the contract fe-bounds proves); nobody outside fe32 touches Fe limbs
 Not decided: that the double-scalar multiplication computes hA + sB; slide() digit arithmetic."""
 import re
 
